@@ -35,7 +35,7 @@ def string_to_int64(value: str) -> int:
     Returns:
         An integer representation of the first 8 characters of the string.
     """
-    byte_value = (value + "\x00\x00\x00\x00")[:SIXTY_FOUR_BITS].encode("utf-8")
+    byte_value = value.encode("utf-8")[:SIXTY_FOUR_BITS].ljust(SIXTY_FOUR_BITS, b"\x00")
     int_value = int.from_bytes(byte_value, "big")
     return int_value if int_value <= MAX_INT64 else MAX_INT64
 
@@ -49,7 +49,7 @@ def int64_to_string(value: int) -> str:
 
     # Decode the byte array back to a UTF-8 string
     # You might need to strip any padding characters that were added when encoding
-    string_value = byte_value.decode("utf-8").rstrip("\x00")
+    string_value = byte_value.decode("utf-8", errors="ignore").rstrip("\x00")
 
     return string_value
 
